@@ -566,6 +566,15 @@ class PEP(object):
                 print("\033[96m(PEPit) Problem issue: PEPit didn't find any nontrivial worst-case guarantee. "
                       "It seems that the optimal value of your problem is unbounded.\033[0m")
 
+            # Forget the solution of a previous solve, if any, as no variable has a value
+            self.G_value, self.F_value, self.residual = None, None, None
+            for point in Point.list_of_leaf_points:
+                point._value = None
+            for expression in Expression.list_of_leaf_expressions:
+                expression._value = None
+            for constraint_or_psd in self._list_of_constraints_sent_to_wrapper + self._list_of_psd_sent_to_wrapper:
+                constraint_or_psd._dual_variable_value = None
+
             # Skip the following as no variable has a value
             return wc_value
 
